@@ -16,6 +16,7 @@
      c20_levenshtein_no_panic      fuzzy_match.rs levenshtein_distance: every matrix[j][i], w1[i-1], w2[j-1] in bounds
      c20_fuzzy_search_no_panic     fuzzy_search_limited (any key, candidate list, threshold) returns
      c20_fuzzy_search_candidate    ... and a suggestion is one of the candidates (or the fold's initial "")
+     c20_fuzzy_fold_minimal        ... at minimal distance among all candidates
      c20_wildcard_no_panic         Pattern::wildcard_match: pattern[j], text[i], pattern_len - 1 never panic
      c20_wildcard_refines          ... and the index-level loop computes the declarative matcher `wildcard` of C02
      c20_ip_in_range_no_panic      IPAddr::is_in_range on parsed addresses: PREFIX_MAX_LEN - prefix cannot underflow,
@@ -45,6 +46,15 @@ Theorem c20_fuzzy_search_candidate : forall (key : str) (lst : list str) (maxd :
   fuzzy_search_limited key lst maxd = POk (Some w) -> In w lst \/ w = [].
 Proof. exact fuzzy_search_candidate. Qed.
 Print Assumptions c20_fuzzy_search_candidate.
+
+(* ... at minimal distance among all candidates (functional specification of the fold in fuzzy_search_limited) *)
+Theorem c20_fuzzy_fold_minimal : forall (key : str) (lst : list str) (acc t : N * str),
+  fuzzy_fold key lst acc = POk t ->
+  (forall w', In w' lst -> exists d', levenshtein key w' = POk d' /\ (fst t <= d')%N) /\
+  (fst t <= fst acc)%N /\
+  (t = acc \/ (In (snd t) lst /\ levenshtein key (snd t) = POk (fst t))).
+Proof. exact fuzzy_fold_minimal. Qed.
+Print Assumptions c20_fuzzy_fold_minimal.
 
 Theorem c20_wildcard_no_panic : forall (pat : pattern) (text : str), exists o, wildcard_indexed pat text = POk o.
 Proof. exact wildcard_indexed_no_panic. Qed.
